@@ -330,11 +330,11 @@ func TestC02(t *testing.T) {
 		}
 		// every window of 6 consecutive metrics x every combination of their values, on three backgrounds
 		for vi, v := range spec.Versions {
-			ws := newWindowSpace(vi, 8)
+			ws := newWindowSpace(vi, 7)
 			Enum(h, "object", ws.size(), func(i int) PrefixCase { return PrefixCase{Ver: vi, A: ws.assignment(i)} }, nil, checkPrefixRoundTrip)
 			if !h.replaying() {
 				h.R.AddExact(int64(ws.size()), int64(ws.size()))
-				h.R.Count(fmt.Sprintf("v%s exhaustive: every window of 8 consecutive metrics x all value combinations x 3 backgrounds, round-tripped", v.Name), int64(ws.size()))
+				h.R.Count(fmt.Sprintf("v%s exhaustive: every window of 7 consecutive metrics x all value combinations x 3 backgrounds, round-tripped", v.Name), int64(ws.size()))
 			}
 		}
 		if env.Tier == "thorough" && !env.Light {
@@ -527,6 +527,48 @@ func checkPairSet(c PairCase) error {
 	return gets(p, o, model, fmt.Sprintf("background %d, Set(%s,%s), Set(%s,%s)", c.BG, c.A1, c.Val1, c.A2, c.Val2))
 }
 
+// checkWindowSet: on the object of a window case, every metric is set to every one of its values in turn (each
+// time on a fresh copy) and the result must be == the object built from the model with that one entry changed;
+// a Set with an illegal value must leave the copy untouched.
+func checkWindowSet(c PrefixCase) error {
+	if c.Ver < 0 || c.Ver > 3 {
+		return nil
+	}
+	p := adapt.Pkgs[c.Ver]
+	base, err := p.Build(c.A)
+	if err != nil {
+		return err
+	}
+	for _, m := range p.V.Metrics {
+		old := c.A[m.Abv]
+		for _, val := range m.Vals {
+			o := base.Clone()
+			if err := o.Set(m.Abv, val); err != nil {
+				return fmt.Errorf("v%s Set(%s,%s) on %s: %v", p.V.Name, m.Abv, val, spec.Canon(p.V, c.A), err)
+			}
+			// every other metric unchanged, this one as set
+			for _, x := range p.V.Metrics {
+				want := c.A[x.Abv]
+				if x.Abv == m.Abv {
+					want = val
+				}
+				if g, _ := o.Get(x.Abv); g != want {
+					return fmt.Errorf("v%s: after Set(%s,%s) on %s, Get(%s) = %q, want %q", p.V.Name, m.Abv, val, spec.Canon(p.V, c.A), x.Abv, g, want)
+				}
+			}
+			// and back again: the object must be == the one it started from
+			if err := o.Set(m.Abv, old); err != nil || !o.Eq(base) {
+				return fmt.Errorf("v%s: Set(%s,%s) then Set(%s,%s) on %s does not give back the same object (err %v, state %s, was %s)", p.V.Name, m.Abv, val, m.Abv, old, spec.Canon(p.V, c.A), err, o.State(), base.State())
+			}
+		}
+		o := base.Clone()
+		if err := o.Set(m.Abv, "~"); err == nil || !o.Eq(base) {
+			return fmt.Errorf("v%s: Set(%s,\"~\") on %s: err=%v, object changed=%v", p.V.Name, m.Abv, spec.Canon(p.V, c.A), err, !o.Eq(base))
+		}
+	}
+	return nil
+}
+
 // straddlers are the fields split across two bytes (reported separately).
 var straddlers = map[string]map[string]bool{
 	"2.0": {"RL": true, "TD": true},
@@ -608,6 +650,16 @@ func TestC07(t *testing.T) {
 				h.R.AddExact(int64(len(ps.cases)), int64(len(ps.cases)))
 				h.R.Count(fmt.Sprintf("pair grid v%s (ordered (metric,value) pairs x %d backgrounds)", ps.v.Name, nBackgrounds), int64(len(ps.cases)))
 				h.R.Sample("pair", ps.cases[len(ps.cases)/3])
+			}
+		}
+		// every window of 5 consecutive metrics x all value combinations x 3 backgrounds: on each such object every
+		// metric set to every value
+		for vi, v := range spec.Versions {
+			ws := newWindowSpace(vi, 5)
+			Enum(h, "window-set", ws.size(), func(i int) PrefixCase { return PrefixCase{Ver: vi, A: ws.assignment(i)} }, nil, checkWindowSet)
+			if !h.replaying() {
+				h.R.AddExact(int64(ws.size()), int64(ws.size()))
+				h.R.Count(fmt.Sprintf("v%s windows: every 5 consecutive metrics x all value combinations x 3 backgrounds, then every metric set to every value", v.Name), int64(ws.size()))
 			}
 		}
 	}
@@ -806,6 +858,65 @@ func checkSliceOffer(c SliceOffer) error {
 	return nil
 }
 
+// NearMiss: a legal Set(m, v) immediately followed by Set(m, v') where v' is a disguise of v (same prefix, same
+// length with one character replaced, padded ...). A validator that remembers the last accepted pair under a
+// key built from part of the value accepts v' only then.
+type NearMiss struct {
+	Ver  int      `json:"ver"`
+	Abv  string   `json:"abv"`
+	Val  string   `json:"legal_value"`
+	Near gen.BStr `json:"offered_next"`
+}
+
+func checkNearMiss(c NearMiss) error {
+	if c.Ver < 0 || c.Ver > 3 {
+		return nil
+	}
+	p := adapt.Pkgs[c.Ver]
+	m := p.V.Metric(c.Abv)
+	if m == nil || !m.HasValue(c.Val) {
+		return nil
+	}
+	near := string(c.Near)
+	o, other := p.Zero(), p.Zero()
+	if err := o.Set(c.Abv, c.Val); err != nil {
+		return nil // C09's offers own this
+	}
+	before := o.Clone()
+	otherBefore := other.Clone()
+	legal := m.HasValue(near)
+	// offered to ANOTHER object first (state kept by the package, not by the object), then to the same one
+	for _, tgt := range []adapt.Obj{other, o} {
+		err := tgt.Set(c.Abv, near)
+		if legal != (err == nil) {
+			return fmt.Errorf("v%s Set(%q,%q) = %v right after Set(%q,%q) succeeded; the pair is legal: %v", p.V.Name, c.Abv, near, err, c.Abv, c.Val, legal)
+		}
+	}
+	if !legal && (!o.Eq(before) || !other.Eq(otherBefore)) {
+		return fmt.Errorf("v%s Set(%q,%q) was refused but changed an object", p.V.Name, c.Abv, near)
+	}
+	return nil
+}
+
+func nearMisses() []NearMiss {
+	var out []NearMiss
+	for vi, v := range spec.Versions {
+		for _, m := range v.Metrics {
+			for _, val := range m.Vals {
+				for _, d := range gen.Disguises(val) {
+					out = append(out, NearMiss{Ver: vi, Abv: m.Abv, Val: val, Near: gen.BStr(d)})
+				}
+				for _, o := range m.Vals { // and every other legal value of the metric, lower-cased
+					if o != val {
+						out = append(out, NearMiss{Ver: vi, Abv: m.Abv, Val: val, Near: gen.BStr(strings.ToLower(o))})
+					}
+				}
+			}
+		}
+	}
+	return out
+}
+
 func sliceOffers() []SliceOffer {
 	var out []SliceOffer
 	for vi, v := range spec.Versions {
@@ -939,6 +1050,19 @@ func TestC09(t *testing.T) {
 			}
 			h.R.AddExact(int64(len(gc)), int64(len(gc)))
 			h.R.Count("objects placed flush with an inaccessible page, every method called", int64(len(gc)))
+		}
+	}
+	if env.Shards <= 1 {
+		nm := nearMisses()
+		// sequential on purpose: the second call must directly follow the first one in the whole process
+		if !doReplay(h, "near-miss", checkNearMiss) {
+			for _, c := range nm {
+				if err := safely(checkNearMiss, c); err != nil {
+					h.fail("near-miss", c, err)
+				}
+			}
+			h.R.AddExact(int64(len(nm)), int64(len(nm)))
+			h.R.Count("exhaustive: every legal Set(m,v) directly followed by Set(m,v') for every disguise v' of v", int64(len(nm)))
 		}
 	}
 	if env.Shards <= 1 {
@@ -1183,6 +1307,27 @@ func TestC15(t *testing.T) {
 		if !h.replaying() {
 			h.R.AddExact(int64(per*len(ratingThresholds)), int64(per*len(ratingThresholds)))
 			h.R.Count("exhaustive: ordered pairs of floats within 160 ulps of a threshold, rated back to back", int64(per*len(ratingThresholds)))
+		}
+	}
+	if env.Shards <= 1 {
+		// every one-decimal score and threshold, followed at once by the same float with one bit flipped (all 64), and
+		// the other way round: a key that drops or reuses some bits of the float answers for the other one
+		var base []float64
+		for k := 0; k <= 100; k++ {
+			base = append(base, float64(k)/10)
+		}
+		base = append(base, 0.05, 3.95, 6.95, 8.95, 9.95, 1e-300, 5e-324)
+		Enum(h, "pair", len(base)*64*2, func(i int) RatingPair {
+			x := base[i/128]
+			y := math.Float64frombits(math.Float64bits(x) ^ (1 << uint((i%128)/2)))
+			if i%2 == 0 {
+				return RatingPair{A: rc(x), B: rc(y)}
+			}
+			return RatingPair{A: rc(y), B: rc(x)}
+		}, nil, checkRatingPair)
+		if !h.replaying() {
+			h.R.AddExact(int64(len(base)*128), int64(len(base)*128))
+			h.R.Count("exhaustive: each one-decimal score and its 64 single-bit flips, rated back to back in both orders", int64(len(base)*128))
 		}
 	}
 	n := env.Scale(100000, 300000)
